@@ -18,7 +18,7 @@ PARTIAL = " PARTIAL: rounding-error bounds and the identification of the recursi
 
 TABLE = {
     "C01": ("Lean refinement proof of the H recursion + bitwise correspondence + mpmath oracle",
-            "Proved for every arithmetic (hence IEEE doubles) and all sizes: the five-step recursion stores at each wedge coordinate a value that depends on the coordinate and beta only (HKernel.runH_refines/pure/size_indep); over checked reals the recursion never divides by zero nor takes the root of a negative number for any size, and never reads the inf/nan table entries (Finite.runH_checked_eq_real, tables_read_defined); every flat index expression of _step_2.._step_5 denotes the cell/table entry the model uses, in range (FlatSteps.*); d/D assembly formula; eps = generated eps; over exact reals the model EQUALS the documented polynomial for ell <= 1 and every unit quaternion (both degenerate Euler branches included: DDef.D_ell1, d_ell1 — pins every sign/phase/index convention) and on both pole families for EVERY ell (DDef.D_zrot, D_pi, D_identity, H_poles). The model is the code: tables, H (from poisoned workspaces), Euler phases, complex powers, fill_d, fill_D agree bit for bit on every generated case." + PARTIAL,
+            "Proved for every arithmetic (hence IEEE doubles) and all sizes: the five-step recursion stores at each wedge coordinate a value that depends on the coordinate and beta only (HKernel.runH_refines/pure/size_indep); over checked reals the recursion never divides by zero nor takes the root of a negative number for any size, and never reads the inf/nan table entries (Finite.runH_checked_eq_real, tables_read_defined); every flat index expression of _step_2.._step_5 denotes the cell/table entry the model uses, in range (FlatSteps.*); d/D assembly formula; eps = generated eps; over exact reals the model EQUALS the documented polynomial for ell <= 1 and every unit quaternion (both degenerate Euler branches included: DDef.D_ell1, d_ell1 — pins every sign/phase/index convention), for ell = 2 (DDef2) and on both pole families for EVERY ell (DDef.D_zrot, D_pi, D_identity, H_poles); for every ell the model computes the documented d PROVIDED the documented d satisfies the Gumerov-Duraiswami relations (0),(41),(50) and the two symmetries — a statement of pure mathematics with a unique solution (GDFamily.objd_eq_doc_of_IsGDFamily, IsGDFamily.unique; and, when Props/DocD builds, discharged for the documented sum itself). The model is the code: tables, H (from poisoned workspaces), Euler phases, complex powers, fill_d, fill_D agree bit for bit on every generated case." + PARTIAL,
             NOTE_COMMON + "quaternionic.ToEulerPhases modelled from its source; np.sqrt(complex) a parameter. Known finding F10 (subnormal near-pole band) is reported as KNOWN-FINDING.", "DESIGN.md §7 C01"),
     "C02": ("Lean theorems (exact zeros for every arithmetic, sYlm = D column in exact arithmetic, narrow-wedge safety) + bitwise correspondence + oracle to ell=1024",
             "Proved: entries below |s| are literal zeros for every scalar type; every H lookup of spin s lies in |m'|<=|s| (so an mp_max-limited calculator is safe for every ell_max); in exact arithmetic sYlm = (-1)^s sqrt((2l+1)/4pi) D^l_{m,-s} of the same model (Routes.sYlm_eq_D_column); H refinement as C01. fill_sYlm agrees bitwise incl. |s|>=3, limited calculators, ell_min>0." + PARTIAL,
@@ -30,13 +30,13 @@ TABLE = {
             "Proved: rotateHornerEntry = sum_n f_ln * DEntry(l,n,m) over exact reals for all l (Routes.rotateHorner_eq_matrix); the flat index walking of _rotate_Horner lands on WignerHindex(ell, ±n, m) for all sizes (IndexWalk.rotH_walk_*). _rotate_Horner agrees bit for bit with the model. f'(Q)=f(RQ), composition, inverse, block norms, metadata, strategies, Modes.rotate are checked by the sweep." + PARTIAL,
             NOTE_COMMON + "the representation property of D is not proved; matrix route uses BLAS.", "DESIGN.md §7 C04"),
     "C05": ("generated integer coefficients (translator) + Lean model of calculate bitwise-validated + Racah oracle",
-            "The integer coefficient B and the radicand of A are re-translated from the source every run together with the declared return width; proved about the generated definitions: no fixed-width overflow of B for j2,j3 <= 20000 (C05.B_exact; a narrower declared width breaks the proof and the witness B_int32_would_overflow), radicand of A exact and non-negative on every call calculate makes with j2+j3 <= 1989 (sharp). The model of Wigner3jCalculator.calculate / Wigner3j / clebsch_gordan (which calls the generated B) reproduces the jitted code bit for bit on exhaustive small J and branch-targeted samples to j=400; proved for every arithmetic: selection-rule zeros are literal zeros, calculate does not depend on the previous workspace content, the front end hands the calculator the cyclic permutation with the largest j first and reads an in-range entry; memory safety of calculate in Props/W3jBounds when present." + PARTIAL,
+            "The integer coefficient B and the radicand of A are re-translated from the source every run together with the declared return width; proved about the generated definitions: no fixed-width overflow of B for j2,j3 <= 20000 (C05.B_exact; a narrower declared width breaks the proof and the witness B_int32_would_overflow), radicand of A exact and non-negative on every call calculate makes with j2+j3 <= 1989 (sharp). The model of Wigner3jCalculator.calculate / Wigner3j / clebsch_gordan (which calls the generated B) reproduces the jitted code bit for bit on exhaustive small J and branch-targeted samples to j=400; proved for every arithmetic: selection-rule zeros are literal zeros, calculate does not depend on the previous workspace content, the front end hands the calculator the cyclic permutation with the largest j first and reads an in-range entry; memory safety of calculate (W3jBounds). Over exact reals (W3jNorm): the output is normalised (sum (2j+1) f(j)^2 = 1), obeys the sign convention sign f(jmax) = (-1)^(j2-j3+m2+m3), equals the closed form (-1)^(j2-j3+m2+m3)/sqrt(2j+1) whenever the range is a single cell (e.g. (j j 0; m -m 0) for every j), satisfies the three-term recurrence with the model's X,Y,Z at every cell but the one matching point, and is zero outside [jmin,jmax] (the last two under the explicit hypothesis Regular, proved for m2=m3=0, for <=3 cells and when B>=0 at either end)." + PARTIAL,
             NOTE_COMMON + "identification with the Racah formula and the 1e-9/1e-12 bounds are oracle-checked only.", "DESIGN.md §7 C05"),
     "C06": ("Lean theorems on product metadata/truncation rules + sweep vs evaluation on rotors",
             "Lean model of Modes.__array_ufunc__/multiply/helper loop nest validated op by op against the real class (~4200 generated operations per run incl. the helper's own read/write sequence); proved for all spins/sizes: spin adds, ell_max rule with truncators, all spellings agree, the truncated product is the full product cut (same terms in the same order: bit for bit), every helper index in range (via C11), out=/in-place overwrite and reject a wrong shape. Sweep: every spelling against evaluation at rotors, truncators, function form with differing ell_min, out=/in-place, scalars." + PARTIAL,
             NOTE_COMMON + "the Clebsch-Gordan series is not proved.", "DESIGN.md §7 C06"),
     "C07": ("Lean proof of the conjugation symmetry of the D assembly (exact arithmetic, all l) + full-block sweep of the group laws",
-            "Proved: D_{-m',-m} = (-1)^{m'+m} conj D_{m',m} for the model's assembly from the quarter wedge (Routes.D_conj_symm), H fold symmetric (C11.hindex_symm). D(1) = identity is proved for every ell (DDef.D_identity) as are the closed forms on both pole families. Homomorphism, unitarity, D(-R) on every entry of every block to ell=128 are swept." + PARTIAL,
+            "Proved: D_{-m',-m} = (-1)^{m'+m} conj D_{m',m} for the model's assembly from the quarter wedge (Routes.D_conj_symm), H fold symmetric (C11.hindex_symm). D(1) = identity is proved for every ell (DDef.D_identity) as are the closed forms on both pole families. Group laws proved for ell<=2 and the rotation-matrix identity at ell=1 (DHom). Homomorphism, unitarity, D(-R) on every entry of every block to ell=128 are swept (quick: all blocks to 48 on the full rotor set + sampled blocks to 128 on four rotors)." + PARTIAL,
             NOTE_COMMON + "homomorphism/unitarity need the identification with the documented polynomial.", "DESIGN.md §7 C07"),
     "C08": ("Lean theorem runH_size_indep (value at a coordinate independent of ell_max, mp_max, workspace; any arithmetic => bit for bit) + cross-configuration bitwise sweep",
             "Proved for every arithmetic: two calculators of different (ell_max, mp_max) and different workspaces hold the same value at every common wedge coordinate; index functions place it (C11). Assembly kernels are pure maps of H. Sweep compares differently sized calculators, wrappers, oversized workspaces and 3-j capacities bit for bit.",
